@@ -285,32 +285,37 @@ func isK7C(data []byte) bool { return bytes.Contains(data, []byte("\r\r\n")) }
 // behind the description line without LF and without a CR directly in front of a LF.
 func faResidues(data []byte) []int {
 	var out []int
-	i := bytes.IndexByte(data, '>')
-	if i != 0 {
+	if len(data) == 0 || data[0] != '>' {
 		return nil
 	}
-	for _, rec := range bytes.Split(data[1:], []byte(">")) {
-		// description line: up to LF, CR LF or a lone CR
-		j := 0
-		for j < len(rec) && rec[j] != '\n' && rec[j] != '\r' {
+	i := 0
+	for i < len(data) {
+		// data[i] == '>': the description line runs to LF, CR LF or a lone CR (a `>` inside it is text)
+		j := i + 1
+		for j < len(data) && data[j] != '\n' && data[j] != '\r' {
 			j++
 		}
-		if j < len(rec) && rec[j] == '\r' {
+		if j < len(data) && data[j] == '\r' {
 			j++
-			if j < len(rec) && rec[j] == '\n' {
+			if j < len(data) && data[j] == '\n' {
 				j++
-			} else if j < len(rec) && rec[j] == '\r' {
+			} else if j < len(data) && data[j] == '\r' {
 				return nil // a CR run: shape K7C, judged separately
 			}
-		} else if j < len(rec) {
+		} else if j < len(data) {
 			j++
 		}
-		body := rec[j:]
+		// the body runs to the next `>` anywhere
+		k := j
+		for k < len(data) && data[k] != '>' {
+			k++
+		}
 		n := 0
-		for _, ln := range bytes.Split(body, []byte("\n")) {
+		for _, ln := range bytes.Split(data[j:k], []byte("\n")) {
 			n += len(bytes.TrimSuffix(ln, []byte("\r")))
 		}
 		out = append(out, n)
+		i = k
 	}
 	return out
 }
@@ -685,7 +690,7 @@ func (c *c07Ctx) mutateFile(cf corpusFile, quick bool) {
 					c.scanCase("declared-length-crlf/"+name, toCRLF(m), false)
 				}
 			}
-			for _, s := range []string{"+" + itoa(L), "0" + itoa(L), "99999999999999999999", "-", "x"} {
+			for _, s := range []string{"+" + itoa(L), "0" + itoa(L), "99999999999999999999", "-", "x", "9223372036854775807", "8000000000000000000", "7280000000000000000", "7270000000000000000", "4611686018427387904"} {
 				if m := setDeclared(data, s); m != nil {
 					c.scanCase("declared-length-text/"+name, m, false)
 				}
@@ -1381,6 +1386,7 @@ func propC07(r *Run) {
 		{"F14 field name wider than the indent", "LOCUS       X                  0 bp    DNA     linear   UNA 01-JAN-2000\nABCDEFGHIJKLMNOP value\n//\n"},
 		{"F16 REFERENCE 1000", "LOCUS       X                  0 bp    DNA     linear   UNA 01-JAN-2000\nREFERENCE   1000\n//\n"},
 		{"F17 declared length -60", "LOCUS       X                 -60 bp    DNA     linear   UNA 01-JAN-2000\nORIGIN      \n//\n"},
+		{"F22 declared length 9223372036854775807", "LOCUS       X  9223372036854775807 bp    DNA     linear   UNA 01-JAN-2000\nORIGIN      \n//\n"},
 		{"F10 truncated inside ORIGIN", "LOCUS       X                  20 bp    DNA     linear   UNA 01-JAN-2000\nORIGIN      \n        1 acgtacgtac acg"},
 		{"F21 CR CR LF in front of ORIGIN", "LOCUS       X                  4 bp    DNA     linear   UNA 01-JAN-2000\nBASE\r\r\nORIGIN      \n        1 acgt\n//\n"},
 		{"F21 CR CR CR LF in a field body", "LOCUS       X                  4 bp    DNA     linear   UNA 01-JAN-2000\nDEFINITION  x.\r\r\r\nORIGIN      \n        1 acgt\n//\n"},
